@@ -21,7 +21,10 @@ pub enum Tok {
     Fill,
     Flush,
     Compact,
+    /// clean shutdown (flush + WAL close), then a new process
     Restart,
+    /// the process is killed at a quiescent point (no shutdown), then a new process
+    Kill,
 }
 
 pub const TYPES: [&str; 2] = ["a", "b"];
@@ -109,15 +112,17 @@ pub fn plan(history: &[Tok], cfg: &SysConfig, last_snap: SnapMode, observe_each:
             }
             Tok::Flush => push(&mut ops, &mut ab, &mut inf, Op::Cmd { text: "FLUSH".into() }, &acked, None),
             Tok::Compact => push(&mut ops, &mut ab, &mut inf, Op::CompactAll, &acked, None),
-            Tok::Restart => {
-                push(&mut ops, &mut ab, &mut inf, Op::Shutdown, &acked, None);
+            Tok::Restart | Tok::Kill => {
+                if *tok == Tok::Restart {
+                    push(&mut ops, &mut ab, &mut inf, Op::Shutdown, &acked, None);
+                }
                 lives.push(LifeSpec { ops: std::mem::take(&mut ops), snap: SnapMode::Off, fsmon: true });
                 acked_before.push(std::mem::take(&mut ab));
                 inflight.push(std::mem::take(&mut inf));
                 observes.push(std::mem::take(&mut obs));
             }
         }
-        if observe_each || *tok == Tok::Restart {
+        if observe_each || *tok == Tok::Restart || *tok == Tok::Kill {
             obs.push((ops.len(), acked.clone()));
             push(&mut ops, &mut ab, &mut inf, Op::Observe { queries: suite_q.clone() }, &acked, None);
         }
@@ -125,6 +130,10 @@ pub fn plan(history: &[Tok], cfg: &SysConfig, last_snap: SnapMode, observe_each:
     if !observe_each {
         obs.push((ops.len(), acked.clone()));
         push(&mut ops, &mut ab, &mut inf, Op::Observe { queries: suite_q.clone() }, &acked, None);
+    }
+    if last_snap != SnapMode::Off {
+        // crash while idle after the last command
+        push(&mut ops, &mut ab, &mut inf, Op::Snap, &acked, None);
     }
     lives.push(LifeSpec { ops, snap: last_snap, fsmon: true });
     acked_before.push(ab);
@@ -786,15 +795,19 @@ pub fn deep_histories() -> Vec<Vec<Tok>> {
         vec![Fill, Restart, Fill, Sa, Restart, Sa],
         vec![Sa, Sb, Flush, Sa, Sb, Flush, Compact, Sa, Restart, Sb],
         vec![Flush, Sa, Flush, Fill, Sa],
+        // kill with a partly filled WAL log, then enough STOREs for an automatic flush and more
+        vec![Sa, Kill, Fill, Sa, Kill, Sa],
+        vec![Sa, Sa, Kill, Fill, Fill, Kill, Fill],
+        vec![Fill, Sa, Kill, Sa, Flush, Sa, Kill, Fill],
     ]
 }
 
 pub fn check(tier: &str) -> i32 {
     let t0 = std::time::Instant::now();
     use Tok::*;
-    let alphabet = [Sa, Sb, Fill, Flush, Compact, Restart];
+    let alphabet = [Sa, Sb, Fill, Flush, Compact, Restart, Kill];
     let (depth, snap) = if tier == "quick" { (3usize, SnapMode::Coarse) } else { (4usize, SnapMode::Fine) };
-    let alphabet: Vec<Tok> = if tier == "quick" { vec![Sa, Fill, Flush, Compact, Restart] } else { alphabet.to_vec() };
+    let alphabet: Vec<Tok> = if tier == "quick" { vec![Sa, Fill, Flush, Compact, Restart, Kill] } else { alphabet.to_vec() };
     let cap_s: f64 = std::env::var("VERIF_WALL_CAP_S").ok().and_then(|s| s.parse().ok()).unwrap_or(if tier == "quick" { 240.0 } else { 2700.0 });
     let scratch = Scratch::new("c01");
     let memo = Mutex::new(HashSet::new());
